@@ -201,11 +201,15 @@ type Query struct {
 	Resolution   time.Duration
 	Where        goexpr.Expr
 	WhereSQL     string
-	AsOf         time.Time
-	AsOfOffset   time.Duration
-	Until        time.Time
-	UntilOffset  time.Duration
-	Stride       time.Duration
+	// WhereSubQueries are the sub queries used by the WHERE clause, in the order
+	// in which they appear
+	WhereSubQueries   []*SubQuery
+	groupBySubQueries []*SubQuery
+	AsOf              time.Time
+	AsOfOffset        time.Duration
+	Until             time.Time
+	UntilOffset       time.Duration
+	Stride            time.Duration
 	// GroupBy are the GroupBy expressions ordered alphabetically by name.
 	GroupBy    []core.GroupBy
 	GroupByAll bool
@@ -598,7 +602,7 @@ func (q *Query) applyFrom(stmt *sqlparser.Select) error {
 }
 
 func (q *Query) applyWhere(stmt *sqlparser.Select) error {
-	where, err := goExprFor(stmt.Where.Expr)
+	where, err := goExprFor(stmt.Where.Expr, &q.WhereSubQueries)
 	if err != nil {
 		return err
 	}
@@ -688,7 +692,7 @@ func (q *Query) applyGroupBy(stmt *sqlparser.Select) error {
 				log.Trace("Dimension specified in group by")
 				nestedEx = nse.Expr
 			}
-			ex, err := goExprFor(nestedEx)
+			ex, err := goExprFor(nestedEx, &q.groupBySubQueries)
 			if err != nil {
 				return err
 			}
@@ -873,7 +877,7 @@ func (f *fielded) ifExprFor(e *sqlparser.FuncExpr, fname string, defaultToSum bo
 	if valueErr != nil {
 		return nil, valueErr
 	}
-	boolEx, boolErr := goExprFor(condEx.Expr)
+	boolEx, boolErr := goExprFor(condEx.Expr, nil)
 	if boolErr != nil {
 		return nil, boolErr
 	}
@@ -1106,42 +1110,44 @@ func (f *fielded) orExprFor(e *sqlparser.OrExpr, defaultToSum bool) (interface{}
 	return expr.OR(left, right), nil
 }
 
-func goExprFor(_e sqlparser.Expr) (goexpr.Expr, error) {
+// goExprFor builds the goexpr.Expr for the given SQL expression. Any SubQuery
+// placeholders that it creates are also appended to sqs (unless sqs is nil).
+func goExprFor(_e sqlparser.Expr, sqs *[]*SubQuery) (goexpr.Expr, error) {
 	if log.IsTraceEnabled() {
 		log.Tracef("Parsing goexpr of type %v: %v", reflect.TypeOf(_e), nodeToString(_e))
 	}
 	switch e := _e.(type) {
 	case *sqlparser.AndExpr:
-		left, err := goExprFor(e.Left)
+		left, err := goExprFor(e.Left, sqs)
 		if err != nil {
 			return nil, err
 		}
-		right, err := goExprFor(e.Right)
+		right, err := goExprFor(e.Right, sqs)
 		if err != nil {
 			return nil, err
 		}
 		return goexpr.Binary("AND", left, right)
 	case *sqlparser.OrExpr:
-		left, err := goExprFor(e.Left)
+		left, err := goExprFor(e.Left, sqs)
 		if err != nil {
 			return nil, err
 		}
-		right, err := goExprFor(e.Right)
+		right, err := goExprFor(e.Right, sqs)
 		if err != nil {
 			return nil, err
 		}
 		return goexpr.Binary("OR", left, right)
 	case *sqlparser.ParenBoolExpr:
-		return goExprFor(e.Expr)
+		return goExprFor(e.Expr, sqs)
 	case *sqlparser.NotExpr:
-		wrapped, err := goExprFor(e.Expr)
+		wrapped, err := goExprFor(e.Expr, sqs)
 		if err != nil {
 			return nil, err
 		}
 		return goexpr.Not(wrapped), nil
 	case *sqlparser.ComparisonExpr:
 		op := strings.ToUpper(e.Operator)
-		left, err := goExprFor(e.Left)
+		left, err := goExprFor(e.Left, sqs)
 		if err != nil {
 			return nil, err
 		}
@@ -1151,7 +1157,7 @@ func goExprFor(_e sqlparser.Expr) (goexpr.Expr, error) {
 			case sqlparser.ValTuple:
 				list := make(goexpr.ArrayList, 0, len(_right))
 				for _, ve := range _right {
-					valE, valErr := goExprFor(ve)
+					valE, valErr := goExprFor(ve, sqs)
 					if valErr != nil {
 						return nil, valErr
 					}
@@ -1182,13 +1188,17 @@ func goExprFor(_e sqlparser.Expr) (goexpr.Expr, error) {
 				if numOfFieldsExcludingHaving != 1 {
 					return nil, fmt.Errorf("Subqueries in must select exactly 1 dimension")
 				}
-				right = &SubQuery{Dim: dim, SQL: nodeToString(stmt)}
+				sq := &SubQuery{Dim: dim, SQL: nodeToString(stmt)}
+				if sqs != nil {
+					*sqs = append(*sqs, sq)
+				}
+				right = sq
 			default:
 				return nil, fmt.Errorf("IN requires a list of values on the right hand side, not %v %v", reflect.TypeOf(e.Right), nodeToString(e.Right))
 			}
 			return goexpr.In(left, right), nil
 		}
-		right, err := goExprFor(e.Right)
+		right, err := goExprFor(e.Right, sqs)
 		if err != nil {
 			return nil, err
 		}
@@ -1214,18 +1224,18 @@ func goExprFor(_e sqlparser.Expr) (goexpr.Expr, error) {
 		return goexpr.Constant(floatVal), nil
 	case *sqlparser.FuncExpr:
 		fname := strings.ToUpper(string(e.Name))
-		ge, err := goFnExprFor(e, fname)
+		ge, err := goFnExprFor(e, fname, sqs)
 		if err != nil && fname[0] == 'P' {
 			log.Errorf("Error parsing function %v, looking for pushdown: %v", fname, err)
 			// this might be a pushdown, try without the leading P
-			ge, err = goFnExprFor(e, fname[1:])
+			ge, err = goFnExprFor(e, fname[1:], sqs)
 			if err == nil {
 				ge = goexpr.P(ge)
 			}
 		}
 		return ge, err
 	case *sqlparser.NullCheck:
-		wrapped, err := goExprFor(e.Expr)
+		wrapped, err := goExprFor(e.Expr, sqs)
 		if err != nil {
 			return nil, err
 		}
@@ -1239,10 +1249,10 @@ func goExprFor(_e sqlparser.Expr) (goexpr.Expr, error) {
 	}
 }
 
-func goFnExprFor(e *sqlparser.FuncExpr, fname string) (goexpr.Expr, error) {
+func goFnExprFor(e *sqlparser.FuncExpr, fname string, sqs *[]*SubQuery) (goexpr.Expr, error) {
 	alias, foundAlias := aliases[fname]
 	if foundAlias {
-		return applyAlias(e, alias)
+		return applyAlias(e, alias, sqs)
 	}
 	numParams := len(e.Exprs)
 	nfn, found := nullaryGoExpr[fname]
@@ -1254,7 +1264,7 @@ func goFnExprFor(e *sqlparser.FuncExpr, fname string) (goexpr.Expr, error) {
 		if numParams != 1 {
 			return nil, fmt.Errorf("Function %v requires 1 parameter, not %d", fname, numParams)
 		}
-		p0, err := paramGoExpr(e, 0)
+		p0, err := paramGoExpr(e, 0, sqs)
 		if err != nil {
 			return nil, err
 		}
@@ -1265,11 +1275,11 @@ func goFnExprFor(e *sqlparser.FuncExpr, fname string) (goexpr.Expr, error) {
 		if numParams != 2 {
 			return nil, fmt.Errorf("Function %v requires 2 parameters, not %d", fname, numParams)
 		}
-		p0, err := paramGoExpr(e, 0)
+		p0, err := paramGoExpr(e, 0, sqs)
 		if err != nil {
 			return nil, err
 		}
-		p1, err := paramGoExpr(e, 1)
+		p1, err := paramGoExpr(e, 1, sqs)
 		if err != nil {
 			return nil, err
 		}
@@ -1280,15 +1290,15 @@ func goFnExprFor(e *sqlparser.FuncExpr, fname string) (goexpr.Expr, error) {
 		if numParams != 3 {
 			return nil, fmt.Errorf("Function %v requires 3 parameters, not %d", fname, numParams)
 		}
-		p0, err := paramGoExpr(e, 0)
+		p0, err := paramGoExpr(e, 0, sqs)
 		if err != nil {
 			return nil, err
 		}
-		p1, err := paramGoExpr(e, 1)
+		p1, err := paramGoExpr(e, 1, sqs)
 		if err != nil {
 			return nil, err
 		}
-		p2, err := paramGoExpr(e, 2)
+		p2, err := paramGoExpr(e, 2, sqs)
 		if err != nil {
 			return nil, err
 		}
@@ -1301,7 +1311,7 @@ func goFnExprFor(e *sqlparser.FuncExpr, fname string) (goexpr.Expr, error) {
 		}
 		params := make([]goexpr.Expr, 0, numParams)
 		for i := 0; i < numParams; i++ {
-			param, err := paramGoExpr(e, i)
+			param, err := paramGoExpr(e, i, sqs)
 			if err != nil {
 				return nil, err
 			}
@@ -1312,15 +1322,15 @@ func goFnExprFor(e *sqlparser.FuncExpr, fname string) (goexpr.Expr, error) {
 	return nil, fmt.Errorf("Unknown function %v", fname)
 }
 
-func paramGoExpr(e *sqlparser.FuncExpr, idx int) (goexpr.Expr, error) {
+func paramGoExpr(e *sqlparser.FuncExpr, idx int, sqs *[]*SubQuery) (goexpr.Expr, error) {
 	nse, ok := e.Exprs[idx].(*sqlparser.NonStarExpr)
 	if !ok {
 		return nil, ErrWildcardNotAllowed
 	}
-	return goExprFor(nse.Expr)
+	return goExprFor(nse.Expr, sqs)
 }
 
-func applyAlias(e *sqlparser.FuncExpr, alias string) (goexpr.Expr, error) {
+func applyAlias(e *sqlparser.FuncExpr, alias string, sqs *[]*SubQuery) (goexpr.Expr, error) {
 	parameterStrings := make([]interface{}, 0, len(e.Exprs))
 	for _, pe := range e.Exprs {
 		parameterStrings = append(parameterStrings, nodeToString(pe))
@@ -1330,6 +1340,9 @@ func applyAlias(e *sqlparser.FuncExpr, alias string) (goexpr.Expr, error) {
 	qp, err := Parse(queryPlaceholder)
 	if err != nil {
 		return nil, fmt.Errorf("Unable to parse query placeholder for applying alias: %v", err)
+	}
+	if sqs != nil {
+		*sqs = append(*sqs, qp.groupBySubQueries...)
 	}
 	return qp.GroupBy[0].Expr, nil
 }
